@@ -687,3 +687,35 @@ def receiver_root(B, op, max_hops=12):
 def root_fields(B, op):
     base, projs = receiver_root(B, op)
     return tuple(p for p in projs if isinstance(p, str))
+
+
+def value_path(B, op, max_hops=24):
+    """Names of the calls an operand's value passes through, walking single definitions backwards
+    (refs, copies, derefs; at a call: record it and continue with its first argument). Ends with
+    ('arg', n) when the walk reaches a parameter. Unlike origin() nothing is treated as transparent."""
+    out = []
+    cur = op
+    for _ in range(max_hops):
+        if cur is None or cur.get('k') not in ('cp', 'mv'):
+            break
+        l = cur['pl']['l']
+        if 1 <= l <= B.b['argc']:
+            out.append(('arg', l))
+            break
+        d = B.single_def(l)
+        if d is None:
+            break
+        kind, bb, idx, node = d
+        if kind == 't':
+            g, r = callee_of(node)
+            out.append(r or g or '?')
+            cur = node['args'][0] if node['args'] else None
+            continue
+        rv = node['rv']
+        if rv['k'] in ('ref', 'rawptr'):
+            cur = {'k': 'cp', 'pl': {'l': rv['pl']['l']}}
+        elif rv['k'] in ('use', 'cast'):
+            cur = rv['op']
+        else:
+            break
+    return out
